@@ -14,8 +14,11 @@
   (4) matches_spec_partial                 `match_datadog_query` = the reference semantics on every
                                            leaf kind (existence, term, phrase, prefix, wildcard,
                                            comparison, range) and every field kind (tag, attribute,
-                                           reserved, default) — for queries without the two deviating
-                                           leaf shapes (witnesses in VrlProofs/Witness/C31.lean)
+                                           reserved, default) — for queries without an existence test
+                                           of the reserved field `tags`, the one remaining deviating
+                                           leaf shape (witness in VrlProofs/Witness/C31.lean);
+                                           comparisons and ranges on tags are covered since the repair
+                                           /repo d99b562 (`comparison_spec`)
   (5) wildcard_is_glob / word_is_glob      with the law "the regex engine decides the two compiled
                                            shapes like the reference glob matcher" as hypothesis
 -/
@@ -209,7 +212,7 @@ theorem match_range_single (E : Env) (a : Str) (f : Field) (lo : CV) (li : Bool)
 
 /-! ### (4) the implementation against the reference semantics -/
 
-theorem leaf_refines (E : Env) (l : Leaf) (h1 : leafTagCompare l = false) (h2 : leafExistsTags l = false) :
+theorem leaf_refines (E : Env) (l : Leaf) (h2 : leafExistsTags l = false) :
     Refines (buildLeaf E l) (checkLeaf l) (leafHolds E l) := by
   cases l with
   | matchAll => exact ⟨_, rfl, fun _ => rfl⟩
@@ -251,25 +254,11 @@ theorem leaf_refines (E : Env) (l : Leaf) (h1 : leafTagCompare l = false) (h2 : 
   | quoted a v => exact anyFields_refines _ _ _ (fun f _ => equals_refines E f v)
   | pfx a p => exact anyFields_refines _ _ _ (fun f _ => prefix_refines E f p)
   | wildcard a w => exact anyFields_refines _ _ _ (fun f _ => wildcard_refines E f w)
-  | comparison a c v =>
-    have hx : ∀ f ∈ normalizeFields a, isTagField f = false := by
-      intro f hf
-      simp only [leafTagCompare, List.any_eq_false] at h1
-      simpa using h1 f hf
-    exact anyFields_refines _ _ _ (fun f hf => compare_refines E f c v (hx f hf))
+  | comparison a c v => exact anyFields_refines _ _ _ (fun f _ => compare_refines E f c v)
   | range a lo li hi ui =>
     apply anyFields_refines
     intro f hf
     apply range_refines
-    · by_cases hb : lo = .unbounded ∧ hi = .unbounded
-      · exact Or.inr hb
-      · left
-        simp only [leafTagCompare] at h1
-        have : (normalizeFields a).any isTagField = false := by
-          cases hlo : decide (lo = .unbounded) <;> cases hhi : decide (hi = .unbounded) <;>
-            simp_all
-        simp only [List.any_eq_false] at this
-        simpa using this f hf
     · by_cases hb : lo = .unbounded ∧ hi = .unbounded
       · left
         simp only [leafExistsTags] at h2
@@ -281,18 +270,18 @@ theorem leaf_refines (E : Env) (l : Leaf) (h1 : leafTagCompare l = false) (h2 : 
       · exact Or.inr hb
 
 /-- no deviating leaf in a list of children -/
-def noDevL (ns : QList) : Bool := !anyLeafL leafTagCompare ns && !anyLeafL leafExistsTags ns
+def noDevL (ns : QList) : Bool := !anyLeafL leafExistsTags ns
 
 mutual
   /-- the node-level refinement, by structural recursion on the query tree -/
   theorem build_refines (E : Env) : (q : QNode) → noDev q = true →
       Refines (build E q) (check q) (holds E q)
     | .leaf l, h => by
-      have h' : leafTagCompare l = false ∧ leafExistsTags l = false := by
-        simpa [noDev, devTagCompare, devExistsTags, anyLeaf] using h
-      simpa [build, check, holds] using leaf_refines E l h'.1 h'.2
+      have h' : leafExistsTags l = false := by
+        simpa [noDev, devExistsTags, anyLeaf] using h
+      simpa [build, check, holds] using leaf_refines E l h'
     | .neg n, h => by
-      have hn : noDev n = true := by simpa [noDev, devTagCompare, devExistsTags, anyLeaf] using h
+      have hn : noDev n = true := by simpa [noDev, devExistsTags, anyLeaf] using h
       have ih := build_refines E n hn
       unfold Refines at ih ⊢
       simp only [check, build]
@@ -304,7 +293,7 @@ mutual
       | err => simp only [hc] at ih; simp [ih]
       | panic => simp only [hc] at ih; simp [ih]
     | .bool op ns, h => by
-      have hn : noDevL ns = true := by simpa [noDev, noDevL, devTagCompare, devExistsTags, anyLeaf] using h
+      have hn : noDevL ns = true := by simpa [noDev, noDevL, devExistsTags, anyLeaf] using h
       have ih := buildList_refines E ns hn
       unfold Refines
       simp only [check]
@@ -326,8 +315,8 @@ mutual
     | .nil, _ => ⟨[], rfl, fun _ => rfl, fun _ => rfl⟩
     | .cons n ns, h => by
       have hh : noDev n = true ∧ noDevL ns = true := by
-        simp only [noDevL, anyLeafL, noDev, devTagCompare, devExistsTags] at h ⊢
-        cases h1 : anyLeaf leafTagCompare n <;> cases h2 : anyLeaf leafExistsTags n <;> simp_all
+        simp only [noDevL, anyLeafL, noDev, devExistsTags] at h ⊢
+        cases h2 : anyLeaf leafExistsTags n <;> simp_all
       have ih1 := build_refines E n hh.1
       have ih2 := buildList_refines E ns hh.2
       unfold Refines at ih1
@@ -349,9 +338,9 @@ mutual
 end
 
 /-- (4) `match_datadog_query` decides a query on an event exactly as the reference semantics does
-    (same verdict, same compile-time rejection), for every query without a comparison on a tag and
-    without an existence test of the reserved field `tags`.  Without that hypothesis the statement is
-    false of the code: `witness_tag_compare`, `witness_exists_tags`. -/
+    (same verdict, same compile-time rejection), for every query without an existence test of the
+    reserved field `tags`.  Without that hypothesis the statement is false of the code:
+    `witness_exists_tags`.  (Comparisons on tags were a second exclusion until /repo d99b562.) -/
 theorem matches_spec_partial (E : Env) (q : QNode) (e : Value) (h : noDev q = true) :
     matchQuery E q e = Spec.run E q e := by
   have := build_refines E q h
@@ -364,6 +353,24 @@ theorem matches_spec_partial (E : Env) (q : QNode) (e : Value) (h : noDev q = tr
     simp [em, rm]
   | err => simp only [hc] at this; simp [this]
   | panic => simp only [hc] at this; simp [this]
+
+/-- every comparison — on a tag, attribute, reserved or default field — is decided as the reference
+    semantics says; on a tag `k` only the values of the elements `k:value` are compared
+    (`Spec.tagValues`).  Unconditional since /repo d99b562. -/
+theorem comparison_spec (E : Env) (a : Str) (c : Cmp) (v : CV) (e : Value) :
+    matchQuery E (.leaf (.comparison a c v)) e = Spec.run E (.leaf (.comparison a c v)) e :=
+  matches_spec_partial E _ e rfl
+
+/-- a range with at least one bound, on any field, likewise -/
+theorem range_spec (E : Env) (a : Str) (lo : CV) (li : Bool) (hi : CV) (ui : Bool) (e : Value)
+    (h : ¬ (lo = .unbounded ∧ hi = .unbounded)) :
+    matchQuery E (.leaf (.range a lo li hi ui)) e = Spec.run E (.leaf (.range a lo li hi ui)) e := by
+  apply matches_spec_partial
+  simp only [noDev, devExistsTags, anyLeaf, leafExistsTags, Bool.not_eq_true', Bool.and_eq_false_iff,
+    decide_eq_false_iff_not]
+  by_cases h1 : lo = .unbounded
+  · right; intro h2; exact h ⟨h1, h2⟩
+  · left; right; exact h1
 
 theorem holdsAll_eq (E : Env) (e : Value) : (ns : QList) →
     holdsAll E ns e = ns.toList.all (fun n => holds E n e)
